@@ -248,6 +248,87 @@ fn main() {
             }
         }
     }
+    // long lists: more than 20 patterns spread over several methods in a layout that is not
+    // grouped by method (clause order must survive whatever the assembler does to group them);
+    // for every k the k-th pattern of the primary method is the first that accepts
+    for total in if ctx.quick() || nostd { vec![24usize] } else { vec![21, 24, 33, 48] } {
+        for partial in [false, true] {
+            // layout: position i belongs to B when i % 3 == 0, to C (ordered) when i % 7 == 3,
+            // otherwise to the primary method; one run of 5 primary patterns sits in a stub
+            let owners: Vec<M> = (0..total)
+                .map(|i| if i % 3 == 0 { M::B } else if i % 7 == 3 { M::E } else { M::A })
+                .collect();
+            let n_primary = owners.iter().filter(|m| **m == M::A).count();
+            for k in 0..n_primary {
+                let mut clauses = vec![];
+                let mut pi = 0usize;
+                let mut stub: Vec<PatSpec> = vec![];
+                for (i, owner) in owners.iter().enumerate() {
+                    match owner {
+                        M::A => {
+                            let pat = PatSpec {
+                                mask: if pi >= k { 7 } else { 0 },
+                                segs: vec![Seg {
+                                    resp: Resp::Ret(1000 + pi as u32),
+                                    quant: Quant::Open,
+                                }],
+                            };
+                            // primary patterns 4..9 are collected into one stub
+                            if (4..9).contains(&pi) {
+                                stub.push(pat);
+                                if pi == 8 {
+                                    clauses.push(ClauseSpec::Stub {
+                                        m: M::A,
+                                        pats: std::mem::take(&mut stub),
+                                    });
+                                }
+                            } else {
+                                clauses.push(ClauseSpec::Single {
+                                    m: M::A,
+                                    entry: Entry::EachCall,
+                                    pat,
+                                });
+                            }
+                            pi += 1;
+                        }
+                        M::B => clauses.push(ClauseSpec::Single {
+                            m: M::B,
+                            entry: Entry::EachCall,
+                            pat: PatSpec {
+                                mask: if i == 0 { 1 } else { 7 },
+                                segs: vec![Seg {
+                                    resp: Resp::Ret(2000 + i as u32),
+                                    quant: Quant::Open,
+                                }],
+                            },
+                        }),
+                        _ => clauses.push(ClauseSpec::Single {
+                            m: M::E,
+                            entry: Entry::NextCall,
+                            pat: PatSpec {
+                                mask: 7,
+                                segs: vec![Seg {
+                                    resp: Resp::Ret(3000 + i as u32),
+                                    quant: Quant::Open,
+                                }],
+                            },
+                        }),
+                    }
+                }
+                if !stub.is_empty() {
+                    clauses.push(ClauseSpec::Stub { m: M::A, pats: stub });
+                }
+                cases.push(Case {
+                    label: format!("long-list/{total}/first-accepting={k}/{}", if partial { "partial" } else { "strict" }),
+                    config: Config { partial, clauses },
+                    histories: HistGen::All {
+                        alphabet: vec![Call::new(M::A, 0), Call::new(M::B, 0), Call::new(M::B, 1)],
+                        depth: 2,
+                    },
+                });
+            }
+        }
+    }
     ctx.watchdog(120, || J::Str("no progress in the C01 explorer".into()));
     let stats = explore_cases(ctx, &cases, opts, &no_extra);
     guard(&stats, 4, true);
